@@ -111,12 +111,21 @@ HomeView(cmd) ==
 \* ---------------------------------------------------------------- signatures (witness classes)
 FirstBadOpt(cv, bad(_)) == LET B == {i \in DOMAIN cv.opts : bad(cv.opts[i])} IN cv.opts[CHOOSE i \in B : \A j \in B : i <= j]
 Rel(a, b) == IF a = b THEN "equal" ELSE "dearer"
+\* witness class of an EQUAL price: prices are logged in 1/100000 $; a price that is not a multiple of 1/8 $ has no exact
+\* binary floating-point representation, so a sum of such prices may be off by an ulp in the code's arithmetic
+Dyadic(p) == p % 12500 = 0
+InexactPrices(cv, it) == \/ \E i \in DOMAIN cv.cands : ~Dyadic(cv.cands[i].price)
+                         \/ \E j \in OkOffs(it) : ~Dyadic(it.offs[j].price)
+FloatMark(cv, it, a, b) == IF a = b /\ Len(cv.cands) > 1 /\ InexactPrices(cv, it) THEN ":sum-of-inexact-float-prices" ELSE ""
 SigCheaper(cv) ==
     LET it == FirstBadOpt(cv, LAMBDA o : Launchable(o) /\ ~(WorstPrice(o) < CandSum(cv)))
     IN LaunchCt(it) \o ":" \o Rel(WorstPrice(it), CandSum(cv)) \o (IF Len(cv.cands) > 1 THEN ":multi" ELSE ":single")
+       \o FloatMark(cv, it, WorstPrice(it), CandSum(cv))
 SigOdFallback(cv) ==
     LET it == FirstBadOpt(cv, LAMBDA o : \E j \in OkOffs(o) : o.offs[j].ct = OnDemand /\ ~(o.offs[j].price < CandSum(cv)))
+        worstOd == MaxOf({it.offs[j].price : j \in {x \in OkOffs(it) : it.offs[x].ct = OnDemand}})
     IN (IF Spot \in OkCts(it) THEN "spot-or-on-demand" ELSE "on-demand-only") \o (IF Len(cv.cands) > 1 THEN ":multi" ELSE ":single")
+       \o FloatMark(cv, it, worstOd, CandSum(cv))
 SigSameType(cv) ==
     LET it == FirstBadOpt(cv, LAMBDA o : Launchable(o) /\ SameAs(cv, o) # {}
                                          /\ ~(WorstPrice(o) < MinOf({cv.cands[c].price : c \in SameAs(cv, o)})))
